@@ -68,6 +68,8 @@ def run(check, prog):
     # parameter map (rule shared with C11) ...
     from . import c11, c20
     c11.xarray_map(check, prog)
+    # forward() builds the scatterer through the model's template object
+    c11.template_class(check, prog)
     # ... and `an invalid scatterer gives -inf` rests on the constructors refusing
     # exactly the invalid ones (rule shared with C20)
     c20.constructors(check, prog)
